@@ -54,8 +54,8 @@ def check_decoder(ctx, key, rule="R-1"):
            detail={"writes_not_dominated": late})
     header, body = md.loop
     latches = [p for p in f.cfg.pred[header] if p in body]
-    from lib.guards import reach_tracking_failures
-    skipping = sorted(set(latches) & set().union(*[reach_tracking_failures(f, header, {g}) for g in gates])) if gates else latches
+    from lib.guards import back_edges_taken
+    skipping = sorted(set(latches) & set().union(*[set(back_edges_taken(f, header, {g}, header)) for g in gates])) if gates else latches
     ctx.ob(rule, "no-entry-skips-the-check:%s" % key, bool(latches) and not skipping,
            "every iteration of the entry loop that goes on to the next entry has passed the duplicate check (no entry is skipped "
            "on account of its value or label before its label was looked up and recorded)", where=f.span,
